@@ -4,6 +4,11 @@
 set -euo pipefail
 cd "$(dirname "$0")"
 REPO=${VERIF_REPO:-/repo}
+# VERIF_GOMOD_DIR: write go.mod/go.sum there instead of into the harness
+# directory (the driver uses a private pair per run, passed with -modfile, so
+# that concurrent runs against different trees cannot mix them up).
+OUT=${VERIF_GOMOD_DIR:-.}
+mkdir -p "$OUT"
 {
   echo "module verif/harness"
   echo
@@ -13,11 +18,11 @@ REPO=${VERIF_REPO:-/repo}
   echo "require pgregory.net/rapid v1.3.0"
   echo
   echo "replace github.com/buchgr/bazel-remote/v2 => $REPO"
-} > go.mod.new
-if ! cmp -s go.mod.new go.mod 2>/dev/null; then mv go.mod.new go.mod; else rm go.mod.new; fi
-cp "$REPO/go.sum" go.sum.new
-grep -q '^pgregory.net/rapid v1.3.0 ' go.sum.new || cat >> go.sum.new <<'SUM'
+} > "$OUT/go.mod.new"
+if ! cmp -s "$OUT/go.mod.new" "$OUT/go.mod" 2>/dev/null; then mv "$OUT/go.mod.new" "$OUT/go.mod"; else rm "$OUT/go.mod.new"; fi
+cp "$REPO/go.sum" "$OUT/go.sum.new"
+grep -q '^pgregory.net/rapid v1.3.0 ' "$OUT/go.sum.new" || cat >> "$OUT/go.sum.new" <<'SUM'
 pgregory.net/rapid v1.3.0 h1:vBvO0VSqti75J1jjYqpgPNBLKMd1+gxa9fYo7vk/Exc=
 pgregory.net/rapid v1.3.0/go.mod h1:dPlE4OBBxgXPqkP79flB6sJL1dx5azpI7HQ9MY9Z7uk=
 SUM
-if ! cmp -s go.sum.new go.sum 2>/dev/null; then mv go.sum.new go.sum; else rm go.sum.new; fi
+if ! cmp -s "$OUT/go.sum.new" "$OUT/go.sum" 2>/dev/null; then mv "$OUT/go.sum.new" "$OUT/go.sum"; else rm "$OUT/go.sum.new"; fi
